@@ -16,9 +16,10 @@
 (*   block_fetch.go  hasher.write(): decode envelope -> cast + validate    *)
 (*                   inner CID -> look the entry up -> lock the entry ->   *)
 (*                   UnmarshalFn -> unlock -> digest = id                  *)
-(*   *_block.go      UnmarshalFn: ALREADY POPULATED => nil (no check!) ;   *)
-(*                   decode id ; id = requested ; decode container ;       *)
-(*                   Verify(roots) ; populate                              *)
+(*   *_block.go      UnmarshalFn: decode id ; id = requested ; decode      *)
+(*                   container ; Verify(roots) ; (re)assign -- also for an *)
+(*                   already populated Block (since repo commit 64c8839;   *)
+(*                   before it: ALREADY POPULATED => nil, no check)        *)
 (*   boxo message.go the receiving side computes  prefix.Sum(data)  with   *)
 (*                   the SENDER's prefix; the block is published to every  *)
 (*                   session that wants the resulting CID                  *)
@@ -41,7 +42,17 @@ CONSTANTS
     Threads,      \* concurrent hasher invocations (Bitswap decodes messages concurrently)
     MaxMsgs,      \* bound on messages received
     Bodies,       \* container classes an adversary may send (subset of AllBodies)
-    RecordHist    \* TRUE: keep the action history (counterexample replay / simulation)
+    RecordHist,   \* TRUE: keep the action history (counterexample replay / simulation)
+    PopulatedShortcut, \* TRUE: UnmarshalFn returns nil without looking at the bytes once its Block is populated
+                  \* (the code BEFORE repo commit 64c8839; kept for the sensitivity configurations
+                  \* MCBitswap_strict*.cfg, where it makes HasherAcceptsOnlyVerified / NoPanic /
+                  \* StoredOnlyVerified fail).  FALSE: the code as it is -- every block is decoded and
+                  \* verified, the verified container is (re)assigned.
+    KeyAlias      \* registry-key aliasing: a function from some CIDs to the CID whose registry key they
+                  \* share.  EMPTY for the code as it is (the key is the CID itself); non-empty only in
+                  \* MCBitswap_keyalias.cfg, which shows what RegistryKeyInjective forbids: keying the
+                  \* registry by the identifier BYTES makes sample (h,r,c) and legacy range (h,from=r,to=c)
+                  \* -- both 12 bytes, different CIDs -- share one entry
 
 Squares == {"S", "T"}           \* S = the requester's square, T = any other square
 Empty   == [kind |-> "empty", of |-> "-", sq |-> "-"]
@@ -51,6 +62,10 @@ AllIDs  == IDs \cup WideIDs
 CidOf(i) == IF i \in WideIDs THEN WideBase[i] ELSE i     \* CIDs are named by the id they decode to
 IdOf(c)  == c
 ValidIDs == IF RefuseWide THEN IDs ELSE AllIDs           \* what New<T>Block accepts
+
+\* The key under which a request is registered for the hasher (block_fetch.go: unmarshalFns.LoadOrStore(cid, ..)
+\* and unmarshalFns.Load(cid)): the CID.  Two different CIDs never share an entry.
+KeyOf(c) == IF c \in DOMAIN KeyAlias THEN KeyAlias[c] ELSE c
 
 (* ---- what can arrive ----------------------------------------------------------- *)
 \* container bytes
@@ -119,8 +134,8 @@ FetchRegister(f) ==
     /\ fs[f].pc = "registering" /\ fs[f].next <= Len(Wants[f])
     /\ LET i == Wants[f][fs[f].next]
            c == CidOf(i)
-       IN /\ IF reg[c] = "none"
-             THEN /\ reg' = [reg EXCEPT ![c] = f]
+       IN /\ IF reg[KeyOf(c)] = "none"
+             THEN /\ reg' = [reg EXCEPT ![KeyOf(c)] = f]
                   /\ fs' = [fs EXCEPT ![f].next = @ + 1, ![f].orig = @ \cup {c}]
              ELSE /\ reg' = reg
                   /\ fs' = [fs EXCEPT ![f].next = @ + 1, ![f].dup = @ \cup {c}]
@@ -140,7 +155,7 @@ OwnID(f, c) == CHOOSE i \in WantSet(f) : CidOf(i) = c
 \* UnmarshalFn of f's Block for CID c, applied to message m: <<error?, new container>>
 Unmarshal(f, c, m) ==
     LET i == OwnID(f, c)
-    IN IF cont[f][i] # Empty THEN <<FALSE, cont[f][i]>>              \* already populated: nil, NOTHING checked
+    IN IF PopulatedShortcut /\ cont[f][i] # Empty THEN <<FALSE, cont[f][i]>>   \* (old code) populated: nil, NOTHING checked
        ELSE IF IdOf(c) # i THEN <<TRUE, Empty>>                       \* "requested doesn't match given"
        ELSE IF ~Decodes(m.body) THEN <<TRUE, Empty>>                  \* container does not decode
        ELSE IF ~Verifies(m.body, i) THEN <<TRUE, Empty>>              \* Verify(roots) fails
@@ -171,7 +186,7 @@ FetchRecv(f) ==
 FetchReturn(f, cancelled) ==
     /\ fs[f].pc = "waiting" /\ chan[f] = << >>
     /\ cancelled \/ fs[f].got = {CidOf(i) : i \in WantSet(f)}
-    /\ reg' = [c \in IDs |-> IF c \in fs[f].orig THEN "none" ELSE reg[c]]
+    /\ reg' = [k \in IDs |-> IF k \in {KeyOf(c) : c \in fs[f].orig} THEN "none" ELSE reg[k]]
     /\ fs' = [fs EXCEPT ![f].pc = IF cancelled THEN "cancelled" ELSE "done"]
     /\ UNCHANGED <<lock, cont, hs, chan, stored, nmsg>>
     /\ Log([a |-> "FetchReturn", f |-> f, cancelled |-> cancelled])
@@ -204,8 +219,8 @@ HValidateCid(t) ==
 \* unmarshalFns.Load(cid): the entry (and so the requester's Block) is fixed from here on
 HLookup(t) ==
     /\ hs[t].pc = "lookup"
-    /\ hs' = IF reg[hs[t].m.cid] = "none" THEN Fail(t)
-             ELSE [hs EXCEPT ![t].pc = "lock", ![t].owner = reg[hs[t].m.cid], ![t].pending = TRUE]
+    /\ hs' = IF reg[KeyOf(hs[t].m.cid)] = "none" THEN Fail(t)
+             ELSE [hs EXCEPT ![t].pc = "lock", ![t].owner = reg[KeyOf(hs[t].m.cid)], ![t].pending = TRUE]
     /\ UNCHANGED <<reg, lock, fs, cont, chan, stored, nmsg>>
     /\ Log([a |-> "HLookup", t |-> t])
 
@@ -281,6 +296,16 @@ RejectedLeavesUnfulfilled ==
 IdCidBijective ==   \* (nmsg >= 0 only makes the formula state-level for TLC)
     nmsg >= 0 => \A x, y \in ValidIDs : (CidOf(x) = CidOf(y) => x = y) /\ IdOf(CidOf(x)) = x
 
+\* C10 ("every identifier maps to exactly one content identifier and back", seen from the registry): the
+\* requests of two different CIDs never share a registry entry, so a pending request is found by exactly
+\* the blocks that carry its CID and a Fetch of another identifier is never mistaken for its duplicate
+RegistryKeyInjective ==
+    /\ nmsg >= 0 => \A c1, c2 \in IDs : KeyOf(c1) = KeyOf(c2) => c1 = c2
+    /\ \A f \in Fetchers : fs[f].pc \in {"registering", "waiting"} =>
+           \A c \in fs[f].orig : reg[KeyOf(c)] = f                           \* an original's entry is its own
+    /\ \A f \in Fetchers : \A c \in fs[f].dup :                            \* a duplicate really is one:
+           \E g \in Fetchers \ {f} : c \in {CidOf(i) : i \in WantSet(g)}     \* somebody else asked for the same CID
+
 \* C10: the block a serving node produces for a requested identifier passes the check and yields the
 \* requested data -- whenever the entry is pending (already-filled entries accept anything, below)
 ServedBlockAccepted ==
@@ -301,16 +326,17 @@ RegistryEmptyAtEnd ==
     (\A f \in Fetchers : fs[f].pc \in {"done", "cancelled", "panicked", "idle"}) =>
         \A c \in IDs : reg[c] \in {"none"} \cup {f \in Fetchers : fs[f].pc = "panicked"}
 
-(* ---- the strict reading: what the code does NOT guarantee ---------------------------- *)
+(* ---- the strict reading --------------------------------------------------------------- *)
 \* "any other bytes are rejected": the hasher accepts a block only if its container verifies.
-\* Violated: UnmarshalFn returns nil without looking at the bytes once the Block is populated.
+\* Holds for the code as it is; violated under PopulatedShortcut (the code before 64c8839), where
+\* UnmarshalFn returned nil without looking at the bytes once the Block was populated.
 HasherAcceptsOnlyVerified ==
     \A t \in Threads : hs[t].pc = "accepted" => Verifies(hs[t].m.body, IdOf(hs[t].m.cid))
 
-\* consequence 1: a duplicate Fetch is handed such a block and panics ("unmarshaling duplicate block")
+\* (under PopulatedShortcut) consequence 1: a duplicate Fetch is handed such a block and panics
 NoPanic == \A f \in Fetchers : fs[f].pc # "panicked"
 
-\* consequence 2: an unverified block is written to the requester's blockstore
+\* (under PopulatedShortcut) consequence 2: an unverified block is written to the requester's blockstore
 StoredOnlyVerified == \A s \in stored : Verifies(s.m.body, IdOf(s.m.cid))
 
 (* ---- emission ---------------------------------------------------------------------------- *)
